@@ -37,8 +37,10 @@ package cmd
 //@   modifies heap
 
 //@ func SyncerCmd.clusterTicker$1
+//@   set renewFailed = ite(result != nil, 1, 0) after call clusterRenew
 //@   loop 1:
 //@     invariant no_refusal_is_pending: renewRefused == 0
+//@     invariant the_last_attempt_is_what_counts: renewFailed == ite(err#1 != nil, 1, 0)
 
 //@ func SyncerCmd.clusterTicker
 //@   arith int
@@ -46,6 +48,9 @@ package cmd
 //@   replay cmd_clusterTicker
 //@   requires nonnil: sc != nil && elect != nil && wait != nil
 //@   requires fresh_role: renewRefused == 0
-//@   modifies heap, renewRefused
+//   renewFailed  1 when the last renewal attempt of this instance failed (for whatever reason)
+//@   ghost var renewFailed mathint = 0
+//@   modifies heap, renewRefused, renewFailed
 //@   loop 1:
 //@     invariant no_refusal_is_pending: renewRefused == 0
+//@     invariant a_leader_whose_renewal_failed_does_not_go_on_leading: renewFailed == 0
